@@ -66,7 +66,7 @@ def gen_world(rng: SimRandom) -> dict:
         'nf': nf,
         'grid': grid,
         'species': species,
-        'species_as': rng.pick(['element', 'species']),
+        'species_as': rng.pick(['element', 'species', 'species_ox']),
         'coord_seed': rng.getrandbits(32),
         'time_step': rng.pick([1e-15, 2e-15, 5e-16]),
         'temperature': rng.pick([300, 650.5, 1000]),
@@ -106,6 +106,9 @@ def make_species(w: dict):
 
     if w['species_as'] == 'species':
         return [Species(s) for s in w['species']]
+    if w['species_as'] == 'species_ox':
+        ox = {'Li': 1, 'Na': 1, 'S': -2, 'Si': 4, 'P': 5, 'O': -2}
+        return [Species(s, ox[s]) for s in w['species']]
     return [Element(s) for s in w['species']]
 
 
@@ -168,6 +171,8 @@ def twin_of(model: dict, w: dict):
             sp.append('X')
         elif w['species_as'] == 'species':
             sp.append(Species(sym))
+        elif w['species_as'] == 'species_ox':
+            sp.append(Species(sym, {'Li': 1, 'Na': 1, 'S': -2, 'Si': 4, 'P': 5, 'O': -2}[sym]))
         else:
             sp.append(Element(sym))
     P = model['P']
